@@ -238,7 +238,7 @@ theorem rfVars_pref (e : EAttr) : ∀ (vars : Variants) (k : Nat) (vs : List Val
     simp only [nthFields] at hp
     simp only [rfVars, specVars]
     cases hix : e.indexOnly
-    · simp only [Bool.false_eq_true, if_false, prefTree, prefTrees, isUintW, beq_self_eq_true, Bool.true_and, untagW_pref]
+    · simp only [Bool.false_eq_true, if_false, prefTree, prefTrees, pairItems, isUintW, beq_self_eq_true, Bool.true_and, untagW_pref]
       cases hsh : va.shape
       · cases (va.enc.getD (e.enc.getD .array)) <;> rfl
       all_goals
